@@ -202,6 +202,11 @@ impl<F: RedisClientFactory> ReplicatorManager<F> {
                 tokio::spawn(fut);
             }
             *replicators = (epoch, new_replicators);
+            // Another thread carrying a different epoch may have overwritten `updating_epoch`
+            // after we set it above (e.g. a forced lower epoch racing with a higher one).
+            // Bring it back in line with what is really installed,
+            // or later requests would be judged against the wrong epoch.
+            self.updating_epoch.store(epoch, atomic::Ordering::SeqCst);
         }
         Ok(())
     }
